@@ -10,6 +10,7 @@ KINDS = {
     "cur": ["arraylist", "singlylinkedlist", "doublylinkedlist", "arraystack", "linkedliststack", "arrayqueue",
             "linkedlistqueue", "circularbuffer", "priorityqueue", "binaryheap", "treeset", "linkedhashset", "treemap",
             "linkedhashmap", "treebidimap", "redblacktree", "avltree", "btree"],
+    "shape": ["redblacktree", "avltree", "btree", "treemap", "treeset", "treebidimap"],
     "enum": ["arraylist", "singlylinkedlist", "doublylinkedlist", "treeset", "linkedhashset", "treemap", "linkedhashmap", "treebidimap"],
     "que": ["arraystack", "linkedliststack", "arrayqueue", "linkedlistqueue", "circularbuffer"],
 }
@@ -70,7 +71,8 @@ PLAN = {
                         dict(job="set", spec="TraceSet", kinds=["treeset"])],
                 mc=MC_RBT[:1] + MC_AVL[:1] + MC_BT[:2]),
     "C07": dict(level="model_checking", design="6 C07",
-                traces=[dict(job="map", spec="TraceMap", kinds=["treemap", "redblacktree", "avltree", "btree", "treebidimap"])],
+                traces=[dict(job="map", spec="TraceMap", kinds=["treemap", "redblacktree", "avltree", "btree", "treebidimap"]),
+                        dict(job="shape", spec="TraceShape")],
                 mc=MC_RBT[:1] + MC_AVL[:1] + MC_BT[:4]),
     "C10": dict(level="model_checking", design="6 C10",
                 traces=[dict(job="map", spec="TraceMap", kinds=["hashbidimap", "treebidimap"])],
@@ -131,6 +133,19 @@ PLAN = {
                 mc=MC_RING),
 }
 
+
+# ---- fidelity: reachable canonical concrete states, implementation-shaped model vs real code -------------
+def _fid(spec, cfg, arg):
+    return dict(spec=spec, cfg=cfg + ".cfg", arg=arg)
+
+FID_TREES = [_fid("MCRBT", "MCRBT_fid", "rbt:7"), _fid("MCAVL", "MCAVL_fid", "avl:7")] + \
+            [_fid("MCBT", "MCBT%d_fid" % m, "bt:8:%d" % m) for m in (3, 4, 5, 6)]
+FID_RING = [_fid("MCRing", "MCRing%d_fid" % c, "ring:%d" % c) for c in (1, 2, 3, 4)]
+FID_HEAP = [_fid("MCHeap", "MCHeap_prio_fid", "heap:6:prio")]
+PLAN["C01"]["fidelity"] = FID_TREES
+PLAN["C07"]["fidelity"] = FID_TREES
+PLAN["C05"]["fidelity"] = FID_RING
+PLAN["C06"]["fidelity"] = FID_HEAP
 
 # ---- texts for MANIFEST.json -----------------------------------------------------------------------
 _MC = ("TLC explores the bounded TLA+ models of the property's state machine exhaustively, and every (reachable concrete "
